@@ -186,3 +186,39 @@ def run(ctx):
             continue
         ok = bool(wf & rf)
         ctx.ob("R5-colfield", "change graph|%s" % name, ok, wt["sp"], "written from %s, read into %s" % (sorted(wf), sorted(rf)))
+    # ---- the column metadata written for a (de)compressed block describes exactly the bytes appended to the data buffer:
+    # in both Direction::process implementations the data buffer is written by RawColumns::{compress, uncompress} only, and the
+    # metadata written is that call's result
+    ctx.rule("R5-colmeta", "sibling agreement of Direction::process (Compressing / Decompressing): `out` is mutated only by RawColumns::compress / uncompress; the metadata written is its result")
+    n_proc = 0
+    for p, r in sorted(f.fns.items()):
+        np_ = norm_fn(p)
+        if r["ckey"] != ("automerge", "lib") or not np_.endswith("as automerge::storage::document::compression::Direction>::process"):
+            continue
+        n_proc += 1
+        b = cfg.body(r)
+        ctx.analysed_fns.add(p)
+        out_param = [i for i in range(1, b.argc + 1) if b.local_name(i) == "out"]
+        writers_, bad = [], []
+        for bi, t in b.calls():
+            for a, ty in zip(t.get("args", []), t.get("argtys", [])):
+                if ty.startswith("&mut ") and "Vec<u8>" in ty:
+                    o = b.operand_origin(a)
+                    if o and out_param and o[0] == out_param[0]:
+                        tgt = norm_fn(t.get("res") or t.get("fn")) or ""
+                        if tgt.endswith(("RawColumns::compress", "RawColumns::uncompress")):
+                            writers_.append((bi, t))
+                        else:
+                            bad.append("%s at %s" % (tgt.split("::")[-1], t["sp"]))
+        ok = len(writers_) == 1 and not bad
+        ctx.ob("R5-colmeta", "%s|data buffer written only by the column (de)compressor" % np_.split(" as ")[0].split("::")[-1], ok, r["sp"],
+               "one writer: %s" % norm_fn(writers_[0][1].get("res") or writers_[0][1].get("fn")).split("::")[-1] if ok else
+               "the data buffer is also changed by %s: the metadata (flags and lengths from the compressor) no longer describes the bytes written" % bad)
+        if writers_:
+            wr = [(bi, t) for bi, t in b.calls() if (norm_fn(t.get("res") or t.get("fn")) or "").endswith("RawColumns::write")]
+            okm = False
+            for bi, t in wr:
+                pv = b.provenance(t["args"][0], through_calls=True)
+                okm = okm or any((c, cb) == (writers_[0][1].get("res") or writers_[0][1].get("fn"), writers_[0][0]) for c, cb in pv.calls)
+            ctx.ob("R5-colmeta", "%s|metadata written is the compressor's result" % np_.split(" as ")[0].split("::")[-1], okm, r["sp"], "")
+    ctx.floor("Direction::process implementations", n_proc, 2)
